@@ -34,7 +34,7 @@ Comb ==
           /\ Laws(rs)                                                       \* the exact values obey the algebraic laws
           /\ Matches(Ev.T, Ev.wv, WVar(rs))
           /\ Matches(Ev.T, Ev.we, WEq(rs))
-          /\ IF chi[1] = "inf" THEN Ev.chiTag = "inf"
+          /\ IF Len(rs) = 1 THEN Ev.chiTag = "inf"                             \* infinite for one result
              ELSE IF \E i \in 1 .. Len(rs) : rs[i].nz = 0 THEN TRUE         \* entries without information: chi^2 not specified
              ELSE Ev.chiTag = "fin" /\ Ev.chi >= 0 /\ Near(Ev.chi, 4096, chi[2], 4 + (IF Ev.T = "float" THEN 64 ELSE 0))
     /\ l' = l + 1
